@@ -678,3 +678,19 @@ class MutObjOf(Kind):
 
     def __repr__(self):
         return "MutObjOf(%s)" % self.clsname
+
+
+class _AnyValue(Kind):
+    """A Python value the contracts say nothing about (deserialized objects): opaque."""
+
+    def build(self, ctx, mk):
+        return Opaque("any value")
+
+    def sort(self):
+        raise EngineLimit("AnyValue has no sort")
+
+    def __repr__(self):
+        return "AnyValue"
+
+
+AnyValue = _AnyValue()
